@@ -547,4 +547,86 @@ Proof.
       apply Em. apply (ti_flushed_old t2 T2 id); [|exact Hk]. rewrite F2. apply (Hall id v). rewrite <- D2. exact H.
     + rewrite <- Hgoal1. reflexivity.
 Qed.
+
+(* ---------- a transaction that does not commit ---------- *)
+(* every page write it scheduled goes to a page it allocated itself, to a fresh overwrite page, or to the original
+   location of a page whose committed contents live in an overwrite page: never to a location the committed
+   state reads *)
+Definition target_ok (t : txs) (p : Z) : Prop :=
+  In p (TxCore.t_new V t) \/ In p fresh0 \/ In p okeys.
+
+Lemma sched_targets_flush t id :
+  (forall p, In p (map fst (TxCore.t_sched V t)) -> target_ok t p) ->
+  (exists used, fresh0 = used ++ TxCore.t_fresh V t) ->
+  (forall p, In p (map fst (TxCore.t_sched V (TxCore.do_flush V s t id))) -> target_ok (TxCore.do_flush V s t id) p) /\
+  (exists used, fresh0 = used ++ TxCore.t_fresh V (TxCore.do_flush V s t id)) /\
+  TxCore.t_new V (TxCore.do_flush V s t id) = TxCore.t_new V t.
+Proof.
+  intros H [used Hu]. unfold TxCore.do_flush.
+  destruct (aget (TxCore.t_dirty V t) id) as [v|]; [|split; [exact H | split; [exists used; exact Hu | reflexivity]]].
+  destruct (TxCore.mem id (TxCore.t_flushed V t)); [split; [exact H | split; [exists used; exact Hu | reflexivity]]|].
+  destruct (TxCore.mem id (TxCore.t_new V t)) eqn:En.
+  - apply mem_in in En. split; [|split; [exists used; exact Hu | reflexivity]].
+    cbn [TxCore.t_sched]. intros p Hp. rewrite map_app in Hp. apply in_app_or in Hp as [Hp|[<-|[]]]; [apply H; exact Hp | left; exact En].
+  - destruct (wget old id) as [w0|] eqn:Eo.
+    + split; [|split; [exists used; exact Hu | reflexivity]].
+      cbn [TxCore.t_sched]. intros p Hp. rewrite map_app in Hp. apply in_app_or in Hp as [Hp|[<-|[]]]; [apply H; exact Hp|].
+      right. right. apply (old_get_val id w0 Eo).
+    + destruct (TxCore.t_fresh V t) as [|w fr] eqn:Ef; [split; [exact H | split; [exists used; rewrite Ef; exact Hu | reflexivity]]|].
+      split; [|split; [exists (used ++ [w]); rewrite <- app_assoc; exact Hu | reflexivity]].
+      cbn [TxCore.t_sched]. intros p Hp. rewrite map_app in Hp. apply in_app_or in Hp as [Hp|[<-|[]]]; [apply H; exact Hp|].
+      right. left. rewrite Hu. apply in_or_app. right. left. reflexivity.
+Qed.
+
+Lemma sched_targets_run : forall ops t,
+  (forall p, In p (map fst (TxCore.t_sched V t)) -> target_ok t p) ->
+  (exists used, fresh0 = used ++ TxCore.t_fresh V t) ->
+  let t' := TxCore.tx_run V s t ops in
+  forall p, In p (map fst (TxCore.t_sched V t')) -> target_ok t' p.
+Proof.
+  unfold TxCore.tx_run.
+  assert (Hfa: forall (l : list (Z * V)) t, (forall p, In p (map fst (TxCore.t_sched V t)) -> target_ok t p) ->
+            (exists used, fresh0 = used ++ TxCore.t_fresh V t) ->
+            let t' := fold_left (fun t (e : Z * V) => let '(id, _) := e in TxCore.do_flush V s t id) l t in
+            (forall p, In p (map fst (TxCore.t_sched V t')) -> target_ok t' p) /\ (exists used, fresh0 = used ++ TxCore.t_fresh V t')).
+  { induction l as [|[id v] l IH]; intros t H U; cbn [fold_left]; [split; assumption|].
+    destruct (sched_targets_flush t id H U) as (A & B & _). apply IH; assumption. }
+  induction ops as [|o ops IH]; intros t H U; cbn [fold_left]; [exact H|].
+  assert (Hstep: (forall p, In p (map fst (TxCore.t_sched V (TxCore.tx_step V s t o))) -> target_ok (TxCore.tx_step V s t o) p) /\
+                 (exists used, fresh0 = used ++ TxCore.t_fresh V (TxCore.tx_step V s t o))).
+  { destruct o as [id|id v|id| |]; cbn [TxCore.tx_step].
+    - split; [|exact U]. cbn [TxCore.t_sched]. intros p Hp. destruct (H p Hp) as [A|[A|A]]; [left; right; exact A | right; left; exact A | right; right; exact A].
+    - destruct (TxCore.mem id (TxCore.t_flushed V t)); [split; assumption|]. split; [exact H | exact U].
+    - destruct (sched_targets_flush t id H U) as (A & B & _). split; assumption.
+    - apply Hfa; assumption.
+    - unfold TxCore.do_checkpoint. destruct (TxCore.t_ckpt V t); [split; assumption|]. split; [|exact U].
+      cbn [TxCore.t_sched]. intros p Hp. rewrite map_app in Hp. apply in_app_or in Hp as [Hp|Hp]; [apply H; exact Hp|].
+      right. right. rewrite map_map in Hp. apply in_map_iff in Hp as ([a b] & E & Hin). cbn in E. subst a.
+      apply filter_In in Hin as [Hin _]. apply (in_map fst) in Hin. exact Hin. }
+  destruct Hstep as [A B]. apply IH; assumption.
+Qed.
+
+(* Whatever an aborted transaction has already flushed (or checkpointed): a reader of the committed state sees
+   every page that existed before exactly as before. *)
+Theorem aborted_tx_invisible ops id :
+  let t := TxCore.tx_run V s (TxCore.tx_begin V fresh0) ops in
+  (forall p, In p (TxCore.t_new V t) -> ~ In p ovals) ->     (* the allocator hands out no overwrite page in use (C04) *)
+  data_id id -> ~ In id (TxCore.t_new V t) ->
+  TxCore.f_read V {| TxCore.f_disk := TxCore.apply_writes V (TxCore.f_disk V s) (TxCore.t_sched V t); TxCore.f_wal := old |} id
+  = TxCore.f_read V s id.
+Proof.
+  intros t Hnew [Hv Hf] Hn. unfold TxCore.f_read. cbn [TxCore.f_disk TxCore.f_wal].
+  replace (TxCore.t_sched V t) with ([] ++ TxCore.t_sched V t) by reflexivity.
+  rewrite apply_app_untouched; [reflexivity|].
+  intros Hp.
+  assert (Ht: target_ok t (TxCore.phys old id)).
+  { apply (sched_targets_run ops (TxCore.tx_begin V fresh0)); [cbn; intros p [] | exists []; reflexivity | exact Hp]. }
+  unfold TxCore.phys in *. destruct (wget old id) as [w|] eqn:E.
+  - destruct (old_get_val id w E) as [Hw Hk].
+    destruct Ht as [A|[A|A]].
+    + exact (Hnew w A Hw).
+    + exact (nodup_app_disj _ _ w (wf_vals wf) Hw A).
+    + destruct (wf_disj wf w A) as [K _]. exact (K Hw).
+  - destruct Ht as [A|[A|A]]; [exact (Hn A) | exact (Hf A) | apply (wget_none_keys old id) in E; exact (E A)].
+Qed.
 End P.
